@@ -56,7 +56,6 @@ func checkC07(r *Run) {}
 func checkC08(r *Run) { genericGuards(r) }
 func checkC09(r *Run) { genericGuards(r) }
 func checkC10(r *Run) { genericGuards(r) }
-func checkC12(r *Run) { genericGuards(r) }
 func checkC13(r *Run) { genericGuards(r) }
 func checkC15(r *Run) { genericGuards(r) }
 func checkC16(r *Run) { genericGuards(r) }
